@@ -18,7 +18,7 @@ from io import BytesIO
 from .. import common, tlc, trace
 
 CLAMP = 1 << 30
-DIMS = ["mode", "wi", "wiho", "d", "dho", "sx", "sy", "fsc", "cdf", "pcm", "size", "range", "base", "qm", "npics", "pn", "pb", "minq", "minscaler", "content"]
+DIMS = ["mode", "wi", "wiho", "d", "dho", "sx", "sy", "fsc", "cdf", "pcm", "size", "range", "base", "qm", "npics", "pn", "pb", "minq", "minscaler", "content", "colour"]
 
 
 # ------------------------------------------------------------------------------ configurations (G)
@@ -123,6 +123,7 @@ def pair_coverage(cfgs):
 # ------------------------------------------------------------------------------ concretisation
 def make_features(cfg, outcome):
     from vc2_data_tables import Levels, Profiles, PictureCodingModes, WaveletFilters, ColorDifferenceSamplingFormats, BaseVideoFormats
+    from vc2_data_tables import PresetColorMatrices, PresetTransferFunctions, PresetColorPrimaries
     from vc2_conformance.codec_features import CodecFeatures
     from vc2_conformance.pseudocode.video_parameters import set_source_defaults
 
@@ -133,6 +134,19 @@ def make_features(cfg, outcome):
     vp["color_diff_format_index"] = ColorDifferenceSamplingFormats(cfg["cdf"])
     vp["luma_offset"], vp["luma_excursion"] = r["lo"], r["le"]
     vp["color_diff_offset"], vp["color_diff_excursion"] = r["co"], r["ce"]
+    col = cfg.get("colour", "base")
+    if col == "rgb_matrix":
+        vp["color_matrix_index"] = PresetColorMatrices.rgb
+    elif col == "pq_transfer":
+        vp["transfer_function_index"] = PresetTransferFunctions.perceptual_quantizer
+    elif col == "sd625":
+        vp["color_primaries_index"] = PresetColorPrimaries.sdtv_625
+        vp["color_matrix_index"] = PresetColorMatrices.sdtv
+        vp["transfer_function_index"] = PresetTransferFunctions.tv_gamma
+    elif col == "hdtv_rgb":
+        vp["color_primaries_index"] = PresetColorPrimaries.hdtv
+        vp["color_matrix_index"] = PresetColorMatrices.rgb
+        vp["transfer_function_index"] = PresetTransferFunctions.tv_gamma
     d, dho = cfg["d"], cfg["dho"]
     qm = None
     if cfg["qm"] != "default":
